@@ -191,6 +191,10 @@ func (m *monC02) Online(f *Flow, c *Conn) {
 		if !resent[idx] {
 			pb := f.Pubs[idx]
 			w.Violate("C02", "dropped", fmt.Sprintf("q%d", pb.QoS), "publish #%d (%s, id %#04x, accepted in incarnation %d) was pending at the stop and the adopted client did not resume it on its first connection", idx, pb.Topic, pb.ID, pb.Gen)
+			// C05 states the same from the side of the wire order: after a
+			// restart all unacknowledged ones are retransmitted before
+			// anything newly submitted
+			w.Violate("C05", "restart-resend-incomplete", fmt.Sprintf("q%d", pb.QoS), "conn%d came online without publish #%d (%s, id %#04x), which was unacknowledged at the stop: not all pending transfers were retransmitted after the restart", c.id, idx, pb.Topic, pb.ID)
 		}
 	}
 	for lvl := 1; lvl <= 2; lvl++ {
